@@ -2,15 +2,17 @@
 import atexit
 import itertools
 import os
+import re
 import shutil
 import tempfile
+import time
 
 import kv
 from kv import Case, xn, xb, xl, xlist, xopt, xbool
 
 ID = "C02"
 MODULE = "C02"
-IMPORTS = "Bytes RustInt RustStd Panics PanicsProofs"
+IMPORTS = "Bytes RustInt RustStd Panics PanicsProofs Ims ImsProofs"
 PROFILES = ("dev", "nochk")
 KERNEL_SAMPLE = 30
 THEOREMS = []     # pinned statements: at the end of the file
@@ -133,8 +135,19 @@ def pq_case(path, query, kind):
     return Case("pathquery", xl(xb(path), xopt(None if query is None else xb(query))), None, {"kind": kind})
 
 
-def conn_case(data, kind, sched=(), read=True, profile="dev"):
-    return Case("explore.conn", xl(xb(data), xlist([xn(s) for s in sched]), xbool(read)), None, {"kind": kind}, profile)
+def conn_case(data, kind, sched=(), read=True, profile="dev", comp="explore.conn"):
+    return Case(comp, xl(xb(data), xlist([xn(s) for s in sched]), xbool(read)), None, {"kind": kind}, profile)
+
+
+def file_case(content, tmpl, kind, ext=0, one_request=False):
+    return Case("explore.file", xl(xb(content), xb(tmpl), xn(ext + (10 if one_request else 0))), None, {"kind": kind})
+
+
+def ims_case(t0, value, kind):
+    # the model takes t0 for the entry's creation time: dates within two days of it are left to C04 (to the second)
+    near = any(time.strftime("%Y", time.gmtime(t0 + d)).encode() in value and time.strftime("%b", time.gmtime(t0 + d)).encode() in value
+               for d in (-172800, 0, 172800))
+    return Case("ims.decide", xl(xn(t0), xb(value)), None, {"kind": kind, "ood": near})
 
 
 def words(alpha, n, symbols=None):
@@ -156,10 +169,12 @@ def valid_head(rng, extra=()):
     t = rng.choice([b"/", b"/index.html", b"/h", b"/v", b"/f.txt", b"/n.html", b"/e.html", b"/t.html", b"/x.html", b"/sub/", b"/sub",
                     b"/secret.private", b"/api/x?a=1&b=2&a=3", b"/api/?=&&=", b"/h?x=%zz", b"/stream/s1000.bin", b"/stream/s0.bin",
                     b"/stream/s70000.bin", b"/post", b"/./h", b"/../x", b"//h", b"/%2e%2e/%2e%2e/etc/passwd", b"/a%", b"/%ff", b"/a.",
-                    b"*", b"/" + b"a" * 300])
+                    b"*", b"/" + b"a" * 300, b"/t2.html", b"/t3.html", b"/c1.html", b"/c2.html", b"/c3.html", b"/a1.html", b"/a2.html",
+                    b"/a3.html", b"/h1.html", b"/h2.html", b"/d1.html", b"/u1.html", b"/odd.name.tar.gz", b"/noext", b"/x.%C3%A9", b"/f.txt%00",
+                    b"/f.txt.", b"/f.%ff", b"/nothing-here.html", b"/stream/s200000.bin", b"/whoami"])
     v = rng.choice([b"HTTP/1.1", b"HTTP/1.1", b"HTTP/1.0", b"HTTP/0.9", b"HTTP/2", b"HTTP/3"])
     hs = [(b"Host", rng.choice([b"localhost", b"localhost:8080", b"b.example", b"alias.example", b"alias.example.", b"unknown",
-                                b"[::1]", b"127.0.0.1:80", b"LOCALHOST", b"a b", b"", b"x@y:1:2"]))]
+                                b"[::1]", b"127.0.0.1:80", b"LOCALHOST", b"a b", b"", b"x@y:1:2", b"lim.example", b"lim.example"]))]
     menu = [
         (b"Range", lambda: rng.choice([b"bytes=0-0", b"bytes=5-2", b"bytes=0-%d" % U64, b"bytes=%d-%d" % (U64, U64), b"bytes=0-%d" % (U64 + 1),
                                        b"bytes=999999-", b"bytes=-5", b"bytes=2-5,7-9", b"bytes=3000-4000", b"bytes=2999-2999", b"bytes=",
@@ -172,7 +187,10 @@ def valid_head(rng, extra=()):
         (b"Origin", lambda: rng.choice([b"https://icelk.dev", b"http://localhost", b"null", b"localhost", b"http://", b"://", b"http://\xe9",
                                         b"https://icelk.dev:99999", b"a" * 70 + b"://x", b"http://[::1", b"http://a:b:c"])),
         (b"Access-Control-Request-Method", lambda: rng.choice([b"PUT", b"GET", b"", b"\xff", b"put"])),
-        (b"Accept-Language", lambda: rng.choice([b"sv", b"en;q=0.5, sv;q=0.9", b";;;", b"sv;q=NaN", b"sv;q=1e400", b"en;q=-0"])),
+        (b"Accept-Language", lambda: rng.choice([b"sv", b"en;q=0.5, sv;q=0.9", b";;;", b"sv;q=NaN", b"sv;q=1e400", b"en;q=-0"] + NASTY)),
+        (b"User-Agent", lambda: rng.choice([b"Mozilla/5.0 (Mobile) Firefox/1", b"curl"] + NASTY)),
+        (b"Cookie", lambda: rng.choice([b"a=b; c=d", b";", b" ; "] + NASTY)),
+        (b"Access-Control-Request-Headers", lambda: rng.choice([b"x-a, x-b", b","] + NASTY)),
         (b"Content-Length", lambda: rng.choice([b"0", b"5", b"%d" % U64, b"%d" % (U64 + 1), b"-1", b"+5", b"5, 5", b" 5", b"0x10", b"9" * 30])),
         (b"Connection", lambda: rng.choice([b"close", b"keep-alive", b"upgrade"])),
         (b"Upgrade", lambda: rng.choice([b"websocket", b"h2c"])),
@@ -190,6 +208,13 @@ def valid_head(rng, extra=()):
     for n, val in hs:
         out += n + rng.choice([b": ", b": ", b":", b":  ", b" : "]) + val + b"\r\n"
     return out + b"\r\n"
+
+
+# values of one or two bytes, not text, not UTF-8: for every header a vary rule, an extension or the core reads
+NASTY = [b"", b"a", b"\xff", b"\x80", b"\xc3", b"\xc3\xa9", b"\xe2\x82", b";", b",", b"=", b"\t", b"a\xff", b"\xffa", b"-", b"0"]
+READ_HEADERS = [b"Accept-Language", b"User-Agent", b"Cookie", b"Accept-Encoding", b"Range", b"If-Modified-Since", b"Origin",
+                b"Access-Control-Request-Method", b"Access-Control-Request-Headers", b"Host", b"Content-Length", b"Connection", b"Upgrade",
+                b"Content-Type", b"Cache-Control", b"Expect", b"Transfer-Encoding", b"Accept"]
 
 
 def mutate(rng, s, alpha=ALPHA + b"\x00\xff\t\x7f\x80"):
@@ -238,6 +263,12 @@ SPECIAL_HEADS = [
     b"GET /%ZZ HTTP/1.1\r\n\r\n", b"GET /% HTTP/1.1\r\n\r\n", b"GET /a?b?c#d HTTP/1.1\r\n\r\n", b"\x16\x03\x01\x02\x00\x01\x00\x01\xfc\x03\x03",
     b"PRI * HTTP/2.0\r\n\r\nSM\r\n\r\n", b"GET / HTTP/1.1\r\nContent-Length: 18446744073709551616\r\n\r\n",
     b"POST /post HTTP/1.1\r\nContent-Length: 18446744073709551615\r\n\r\nabc", b"POST /post HTTP/1.1\r\nContent-Length: 3\r\n\r\nabcdef",
+    # no handler reads the body: drain() discards what the head announced
+    b"POST /f.txt HTTP/1.1\r\nContent-Length: 18446744073709551615\r\n\r\nabc", b"PUT /index.html HTTP/1.1\r\nContent-Length: 9223372036854775808\r\n\r\n",
+    b"POST /nothing HTTP/1.1\r\nContent-Length: 18446744073709551614\r\n\r\n" + b"x" * 5000, b"POST /h HTTP/1.1\r\nContent-Length: 4097\r\n\r\n" + b"y" * 4096,
+    b"DELETE /stream/s10.bin HTTP/1.1\r\nContent-Length: 18446744073709551615\r\n\r\nz", b"POST /f.txt HTTP/1.1\r\nHost: lim.example\r\nContent-Length: 18446744073709551615\r\n\r\nabc",
+    b"GET / HTTP/1.1\r\nHost: lim.example\r\n\r\n", b"HEAD / HTTP/1.1\r\nHost: lim.example\r\n\r\n", b"GET /index.html\r\n\r\n", b"HEAD /a?b\r\nhost:localhost\r\n\r\n",
+    b"GET / HTTP/1.1\r\nX-Empty: \r\n\r\n", b"GET / HTTP/1.1\r\nX-Empty:   \t \r\n\r\n", b"GET / HTTP/1.1\r\nAccept-Encoding: \n\n",
 ]
 
 
@@ -325,6 +356,19 @@ def generate(rng, tier):
         for b_ in (0, 5, 9, 10, 11, U64 - 1, U64, U64 + 1):
             cases += stream_cases(b"bytes=%d-%d" % (a, b_), 10, "stream")
     cases += stream_cases(None, 0, "stream") + stream_cases(None, 70000, "stream") + stream_cases(b"bytes=0-0", 0, "stream")
+    # the chunk loop run to its end: windows around the 64 KiB buffer boundaries of files of 70000 and 200000 bytes, windows that
+    # end beyond the file, both arithmetic profiles
+    cases += stream_cases(None, 200000, "stream-loop", PROFILES) + stream_cases(None, 1000, "stream-loop") + stream_cases(None, 1, "stream-loop")
+    for n in (70000, 200000):
+        for a, b_ in [(0, 65534), (0, 65535), (0, 65536), (1, 65536), (65535, 65535), (65535, 65536), (65536, 65536), (65536, 65537), (65537, 69999),
+                      (0, n - 1), (0, n), (1, n + 5), (n - 1, n - 1), (n - 1, n + 70000), (n, n), (n + 1, n + 2), (131071, 131072), (131072, 131073),
+                      (5, U64), (69999, U64 - 1)]:
+            cases += stream_cases(b"bytes=%d-%d" % (a, b_), n, "stream-loop", PROFILES if (a + b_) % 3 == 0 else ("dev",))
+    for _ in range(40 if quick else 2000):
+        n = rng.choice([1000, 70000, 200000])
+        a = rng.choice([0, 1, rng.randrange(0, n), 65535, 65536, n - 1, n])
+        b_ = rng.choice([a, a + 1, rng.randrange(a, a + 140000), n - 1, n, n + 1, 65535, 65536, 131071, U64])
+        cases += stream_cases(b"bytes=%d-%d" % (a, max(a, b_)), n, "stream-loop", (rng.choice(PROFILES),))
     for w in words(b"", 3 if quick else 4, [b"bytes=", b"0", b"9", b"-", b"+", b",", b" ", b"18446744073709551615", b"18446744073709551616"]):
         cases += range_cases(w, 5, "range-words", profiles=("dev",) if quick else PROFILES)
     for _ in range(300 if quick else 20000):
@@ -341,10 +385,33 @@ def generate(rng, tier):
     dates = [b"Tue, 27 Jul 2021 14:08:15 GMT", b"Thu, 01 Jan 1970 00:00:00 GMT", b"Fri, 31 Dec 9999 23:59:59 GMT", b"Sat, 01 Jan 0000 00:00:00 GMT",
              b"Tue, 27 Jul -9999 14:08:15 GMT", b"Tue, 27 Jul +9999 14:08:15 GMT", b"Tue, 27 Jul 99999 14:08:15 GMT", b"Tue, 29 Feb 2021 00:00:00 GMT",
              b"Tue, 31 Jun 2021 24:00:00 GMT", b"Tue, 27 Jul 2021 23:59:60 GMT", b"", b"GMT", b"Tue", b"Tue, ", b"tue, 27 jul 2021 14:08:15 gmt"]
+    dates += [b"Sat, 29 Feb 2020 12:00:00 GMT", b"Fri, 31 Dec 9999 23:59:58 GMT", b"Mon, 01 Jan -9999 00:00:00 GMT", b"Wed, 01 Jan 9999 00:00:00 GMT",
+              b"Fri, 31 Dec +9999 23:59:59 GMT", b"Xxx, 31 Dec 9999 23:59:59 GMT", b"Mon, 31 Dec 9999 23:59:59 GMT", b"Fri, 31 Dec 9999 23:59:59 GMT ",
+              b"Fri, 31 Dec 9999 23:59:59", b"Thu, 01 Jan 1970 00:00:00 GMT\xff", b"\xff", b"Fri, 32 Dec 9999 23:59:59 GMT", b"Fri, 31 Dec 9999 24:00:00 GMT"]
     for d in dates:
         cases.append(Case("explore.date", xb(d), None, {"kind": "date"}))
     for _ in range(300 if quick else 20000):
-        cases.append(Case("explore.date", xb(mutate(rng, rng.choice(dates[:8]), b"0123456789 :,-+GMTJanFebTue")), None, {"kind": "date-random"}))
+        cases.append(Case("explore.date", xb(mutate(rng, rng.choice(dates[:8] + dates[15:19]), b"0123456789 :,-+GMTJanFebTue")), None, {"kind": "date-random"}))
+    # the same hit arm, its decision (200 / 304) compared with Model/Ims.v: one field at a time away from a valid date, then random fields
+    t0 = int(time.time())
+    FIELDS = [[b"Tue", b"Mon", b"Xxx", b"tue", b"Tu", b"Tues"], [b", ", b",", b" ", b",  "], [b"27", b"00", b"01", b"31", b"32", b"7", b" 7", b"2x"], [b" ", b""],
+              [b"Jul", b"Feb", b"Dec", b"jul", b"JUL", b"Abc", b"Ju"], [b" "], [b"2021", b"2221", b"9999", b"0000", b"-9999", b"+2221", b"-0000", b"99999", b"221", b"+221", b"--21"],
+              [b" "], [b"14", b"00", b"23", b"24", b"99", b"4"], [b":", b" "], [b"08", b"59", b"60"], [b":"], [b"15", b"59", b"60", b"61"],
+              [b" GMT", b"GMT", b" UTC", b" gmt", b" GMT ", b" GMT\t", b""]]
+    base = [f[0] for f in FIELDS]
+    for d in dates:
+        cases.append(ims_case(t0, d, "ims"))
+    for i, f in enumerate(FIELDS):
+        for v in f[1:]:
+            cases.append(ims_case(t0, b"".join(base[:i] + [v] + base[i + 1:]), "ims-field"))
+    for _ in range(400 if quick else 20000):
+        cases.append(ims_case(t0, b"".join(rng.choice(f) if rng.random() < 0.25 else f[0] for f in FIELDS), "ims-fields"))
+    for day in (28, 29, 30, 31):
+        for mon in (b"Feb", b"Apr", b"Jun", b"Sep", b"Nov", b"Jan"):
+            for year in (b"1900", b"2000", b"2100", b"2024", b"-0004", b"-0100", b"-0400", b"0000"):
+                cases.append(ims_case(t0, b"Tue, %d %s %s 00:00:00 GMT" % (day, mon, year), "ims-calendar"))
+    for _ in range(150 if quick else 10000):
+        cases.append(ims_case(t0, mutate(rng, rng.choice(dates[:8] + dates[15:19]), b"0123456789 :,-+GMTJanFebTue"), "ims-random"))
     # Origin, Host: the components of C13 / C15 on their own generators (their specifications are theirs; here: no panic)
     import c13
     import c15
@@ -416,6 +483,75 @@ def generate(rng, tier):
     if not quick:
         for c in [c for c in cases if c.comp == "h1.request" and c.meta["kind"].startswith("exh")][::40]:
             cases.append(conn_case(c.x[1][4][1], "conn-exh"))
+    # every header the core, a vary rule or an extension reads, with values of 0..2 bytes that are not text / not UTF-8, on the
+    # pages that read them (vary page, cached page with a CORS rule, query handler, file, stream, preflight), also behind the limiter
+    targets = [(b"GET", b"/v"), (b"GET", b"/h"), (b"GET", b"/api/x?a=1"), (b"GET", b"/f.txt"), (b"GET", b"/stream/s10.bin"), (b"OPTIONS", b"/api/x"),
+               (b"HEAD", b"/t2.html"), (b"POST", b"/post")]
+    for hn in READ_HEADERS:
+        for v in NASTY:
+            m, t = targets[(len(cases)) % len(targets)] if quick else (None, None)
+            for m, t in ([(m, t)] if quick else targets):
+                host = b"lim.example" if (len(cases) % 5 == 0) else b"localhost"
+                hs = [b"Host: " + host] if hn != b"Host" else []
+                if m == b"OPTIONS" and not hn.startswith(b"Access-Control-Request-M"):
+                    hs += [b"Origin: https://icelk.dev", b"Access-Control-Request-Method: PUT"] if hn != b"Origin" else [b"Access-Control-Request-Method: PUT"]
+                data = m + b" " + t + b" HTTP/1.1\r\n" + b"".join(h + b"\r\n" for h in hs) + hn + b": " + v + b"\r\n\r\n"
+                # twice on one connection: the second request meets the cache entry / the limiter's count of the first
+                cases.append(conn_case(data + data, "conn-header-value"))
+    # the 429 answer and the drop under malformed input: several requests to the rate-limited host on one connection
+    for _ in range(25 if quick else 600):
+        data = b""
+        for _ in range(rng.choice([2, 4, 7])):
+            base = valid_head(rng, extra=[(b"Host", b"lim.example")])
+            base = base.replace(b"Host: localhost\r\n", b"").replace(b"Host: b.example\r\n", b"")
+            data += base if rng.random() < 0.5 else mutate(rng, base)
+        cases.append(conn_case(data, "conn-limited", sched=rand_sched(rng, len(data)) if rng.random() < 0.3 else ()))
+    # the same bytes against a REAL server (RunConfig::execute): the connection count of the shutdown manager must come back
+    for s in SPECIAL_HEADS[::2 if quick else 1]:
+        if len(s) <= 20000:
+            cases.append(conn_case(s, "server-special", comp="explore.server"))
+    for _ in range(60 if quick else 3000):
+        base = valid_head(rng)
+        data = base if rng.random() < 0.5 else mutate(rng, base)
+        cases.append(conn_case(data, "server-random", sched=rand_sched(rng, len(data)) if rng.random() < 0.3 else (), read=rng.random() < 0.9,
+                               comp="explore.server"))
+    # served files that start with an extension line, through the real Present extensions (kvarn + kvarn-extensions), and the
+    # template files they name ("T" stands for the generated template file)
+    P_EXT = [b"tmpl", b"cache", b"hide", b"allow-ips", b"download", b"nonce", b"zz", b""]
+    P_ARG = [b"T", b"T T", b"client:full", b"server:none", b"client:1s server:0s", b"server:", b":", b"::", b"127.0.0.1", b"999.1.1.1 127.0.0.1", b"::1",
+             b"client:99999999999999999999s", b"\xc3\xa9", b"missing.html", b"\"a b\"", b"", b" "]
+    P_BODY = [b"", b"<p>$[a]</p>", b"$[", b"\\$[a]", b"\\\\$[a]", b"$[]", b"$[a", b"<!-- tmpl-ignore -->\n$[a]$[b]", b"\xff$[\xff]", b"<script nonce=\"x\">",
+              b"$[a]$[a]" * 40, b"x" * 47 + b"\ntmpl-ignore\n$[a]"]
+    T_FILES = [b"$[a]\nA\n$[b]\nB\n", b"$[a]\n", b"$[a]", b"", b"$[a]\r\n", b"$[a] x", b"\\$[a]\n$[b]\n", b"$[a]\n$[a]\n", b"$[\xff]\nx\n"]
+    for e in P_EXT:
+        for a in P_ARG:
+            for end in (b"\n", b"\r\n", b""):
+                line = b"!> " + e + (b" " + a if a else b"") + end
+                cases.append(file_case(line + rng.choice(P_BODY), rng.choice(T_FILES), "file-line", ext=rng.choice([0, 0, 0, 1, 2]),
+                                       one_request=quick and rng.random() < 0.7))
+    for _ in range(60 if quick else 3000):
+        parts = [rng.choice(P_EXT) + b" " + rng.choice(P_ARG) for _ in range(rng.choice([1, 2, 3]))]
+        line = b"!> " + rng.choice([b" &> ", b"&>", b" &>  "]).join(parts) + rng.choice([b"\n", b"\r\n", b"", b" \n"])
+        line = line if rng.random() < 0.7 else mutate(rng, line, ALPHA_P)
+        cases.append(file_case(line + rng.choice(P_BODY), rng.choice(T_FILES), "file-random", ext=rng.choice([0, 0, 1]), one_request=quick))
+    # template files: bounded-exhaustive over the structural tokens of the template syntax
+    for w in words(b"", 3 if quick else 5, [b"$[", b"a", b"]", b"\n", b"\r\n", b"\\", b" "]):
+        cases.append(file_case(b"!> tmpl T\n$[a]|$[b]", w, "file-template", one_request=True))
+    for b_ in P_BODY:
+        cases.append(file_case(b"!> tmpl T\n" + b_, b"$[a]\nA\n", "file-template"))
+        cases.append(file_case(b"!> hide\n" + b_, b"", "file-line", ext=1))
+    # url_crawl (anchor url-crawl/src/lib.rs): the link iterators the push extension and the reverse proxy run on HTML
+    U_SYMS = [b"<", b"img", b" src=", b" href=", b"\"", b"'", b"`", b"/a", b">", b"link", b" rel=\"stylesheet\"", b"\xc3\xa9", b"//", b"\\",
+              b"background-image: url(", b"/abc", b")"]
+    for w in words(b"", 3 if quick else 4, U_SYMS):
+        cases.append(Case("explore.urls", xb(w), None, {"kind": "urls-words"}))
+    html = (b"<!DOCTYPE html><html><head><link rel=\"stylesheet\" href=\"/style.css\"><script src='/s.js'></script></head><body>"
+            b"<img src=\"/a.png\" loading=\"lazy\"><main style=\"background-image: url('/bg.png');\"><a href=\"/x\">x</a></main></body></html>")
+    for _ in range(500 if quick else 30000):
+        m = mutate(rng, html, b"<>\"'` =/\\\xc3\xa9\xff")
+        cases.append(Case("explore.urls", xb(m[:rng.randrange(0, len(m) + 1)] if rng.random() < 0.5 else m), None, {"kind": "urls-random"}))
+    # last: the accounting case of the live components (see extra_oracle)
+    cases.append(Case("query.parse", xb(b"live=accounting"), None, {"kind": "live-accounting"}))
     return cases
 
 
@@ -433,16 +569,53 @@ def has_panic(c, i):
     return i.startswith(PANIC)
 
 
+LIVE = ("explore.conn", "explore.server", "explore.file", "explore.date", "ims.decide", "stream.window", "c02.path")
+TROUBLE = {}          # id -> (component, kind, message) of the live cases the harness could not execute (no verdict)
+
+
+def harness_trouble(c, i):
+    """(L (N 93) msg): the harness could not do ITS part (no socket, no server, no answer within 30 s on a busy machine) after
+    three attempts.  Not a verdict: counted and named in the evidence; too many of them fail the run as a harness error."""
+    if c.comp in LIVE and i.startswith("(L (N 93)"):
+        msg = ""
+        if "(B " in i:
+            msg = bytes.fromhex(i[i.index("(B ") + 3:i.index(")", i.index("(B "))]).decode("latin1")
+        TROUBLE[c.id] = (c.comp, c.meta.get("kind"), msg)
+        return True
+    return False
+
+
+def trouble_limit(cases):
+    live = sum(1 for c in cases if c.comp in LIVE)
+    return max(5, live // 50)
+
+
+N_LIVE = [0]
+
+
 def extra_oracle(c, i):
+    if c.meta.get("kind") == "live-accounting":
+        limit = max(5, N_LIVE[0] // 50)
+        if len(TROUBLE) > limit:
+            return ("HARNESS ERROR, not a finding about kvarn: %d of %d live cases could not be executed (limit %d): %s"
+                    % (len(TROUBLE), N_LIVE[0], limit, sorted(TROUBLE.items())[:8]))
+        return None
     # independent of every model: no panic, anywhere
     bad = has_panic(c, i)
     if bad:
         what = "a panic" + (": " + bytes.fromhex(i[i.index("(B ") + 3:i.index(")", i.index("(B "))]).decode("latin1")
                             if c.comp.startswith("explore") and "(B " in i else "")
         return "%s in %s on this input (profile %s)" % (what, c.comp, c.profile)
-    if c.comp == "explore.conn" and i.startswith("(L (N 94)"):
-        return "the connection task did not end within 20 s after the client closed its sending side"
+    if c.comp in ("explore.conn", "explore.file") and i.startswith("(L (N 94)"):
+        return "the connection task did not end within 30 s after the client closed its sending side (two attempts)"
+    if c.comp == "explore.server" and i.startswith("(L (N 95)"):
+        return "shutdown::Manager::get_connecions() did not return to its idle value after the connection had gone: " + i
+    if c.comp in ("explore.date", "ims.decide") and i.startswith("(L (N 92)"):
+        return "harness: the If-Modified-Since request was not answered from the response cache (the hit arm is the code under test)"
     return None
+
+
+SEEN_LIVE = set()
 
 
 def out_of_domain(c, i):
@@ -453,7 +626,10 @@ def out_of_domain(c, i):
         m = re.match(rb"bytes=\+?(\d+)-", c.x[1][1][1][0][1])
         if m and 2 ** 31 <= int(m.group(1)) < 2 ** 63:
             return True
-    return i.startswith("(L (N 96)") or bool(c.meta.get("ood"))
+    if c.comp in LIVE:
+        N_LIVE[0] += 0 if c.id in SEEN_LIVE else 1
+        SEEN_LIVE.add(c.id)
+    return i.startswith("(L (N 96)") or bool(c.meta.get("ood")) or harness_trouble(c, i)
 
 
 def spec_ok(c, i, s):
@@ -471,9 +647,12 @@ def signature(c, m):
 
 def classify(c, i):
     # integer * multiplier in from_kvarn_cache_control, builds with overflow checks only; the value comes from a handler's or an
-    # upstream server's RESPONSE, never from the client
+    # upstream server's RESPONSE, never from the client.  ONLY the overflow inputs (u32 integer x unit >= 2^32) are in the class: any
+    # other panic of that function is a new finding
     if c.comp == "cc.kvarn" and c.profile == "dev" and i.startswith(PANIC):
-        return "kvarn-cache-control-overflow"
+        m = re.fullmatch(rb"(\d+)([smhd])", c.x[1][1][1].strip(b" \t\n\r\x0b\x0c"))
+        if m and int(m.group(1)) < 2 ** 32 and int(m.group(1)) * {b"s": 1, b"m": 60, b"h": 3600, b"d": 86400}[m.group(2)] >= 2 ** 32:
+            return "kvarn-cache-control-overflow"
     return None
 
 
@@ -483,7 +662,7 @@ def describe(c):
     if c.comp == "h1.request":
         d["head"] = kv.pretty(x[1][4], 300)
         d["schedule"] = [b[1] for b in x[1][5][1]][:12]
-    elif c.comp == "explore.conn":
+    elif c.comp in ("explore.conn", "explore.server"):
         d["bytes_sent"] = kv.pretty(x[1][0], 300)
     else:
         d["input"] = kv.pretty(x, 300)
@@ -501,7 +680,10 @@ def extra_coverage(cases, impl, model, spec):
             "exploration_note": "explore.conn / explore.date are a TEST of the unmodelled rest (live handle_connection with default extensions, "
                                 "CORS, CSP, nonce, vary, files, stream_body, a query-parsing and a body-reading handler; the time crate's date "
                                 "parser): their 'model' is the constant 'ends cleanly'",
-            "panics_observed": sum(1 for c in cases if c.id in impl and extra_oracle(c, impl[c.id]))}
+            "panics_observed": sum(1 for c in cases if c.id in impl and c.meta.get("kind") != "live-accounting" and extra_oracle(c, impl[c.id])),
+            "live_cases": sum(1 for c in cases if c.comp in LIVE),
+            "live_cases_not_executed": [{"id": k, "component": v[0], "kind": v[1], "why": v[2]} for k, v in sorted(TROUBLE.items())],
+            "live_cases_not_executed_limit": trouble_limit(cases)}
 
 
 def directed(rng, mismatches):
@@ -607,6 +789,14 @@ THEOREMS = [
      "forall (checked : bool) (hdr : option bytes) (range : option (N * N)) (file_len : N), Range.sanitize_range hdr = Ok range -> stream_window checked range file_len <> Panic"),
     ("stream_chunk_never_panics",
      "forall (checked : bool) (pos read end_ : N), pos < end_ -> pos + read <= u64_max -> stream_chunk checked pos read end_ <> Panic"),
+    ("stream_body_never_panics",
+     "forall (checked : bool) (hdr : option bytes) (range : option (N * N)) (file_len : N) (reads : list N) (start end_ len : N), Range.sanitize_range hdr = Ok range -> stream_window checked range file_len = Ok (start, end_, len) -> Forall (fun r => r <= stream_buf) reads -> start + nsum (live_reads reads) <= 9223372036854775807 -> exists sent, stream_loop checked start end_ reads = Ok sent /\\ nsum sent = N.min len (nsum (live_reads reads)) /\\ nsum sent <= len"),
+    ("if_modified_since_never_panics",
+     "forall (creation : Z) (hdr : option bytes), (odt_min + 1 <= creation <= odt_max)%Z -> ims_fresh false creation hdr <> Panic"),
+    ("if_modified_since_rule",
+     "forall (creation : Z) (hdr : option bytes), (odt_min + 1 <= creation <= odt_max)%Z -> (ims_fresh false creation hdr = Ok true <-> exists v ts, hdr = Some v /\\ Http1Read.hv_to_str_ok v = true /\\ parse_http_date v = Some ts /\\ (creation - 1 <= ts)%Z) /\\ (ims_fresh false creation hdr = Ok true \\/ ims_fresh false creation hdr = Ok false)"),
+    ("if_modified_since_plus_variant_refuted",
+     "forall creation : Z, ims_fresh true creation (Some last_second) = Panic"),
     ("present_line_never_panics",
      "forall data : bytes, exists r, PresentLine.present_parse data = Ok r /\\ match r with | Some p => (PresentLine.p_data_start p <= length data)%nat /\\ PresentLine.p_body p = skipn (PresentLine.p_data_start p) data | None => True end"),
     ("nonce_rewriter_never_panics",
